@@ -105,7 +105,11 @@ def check_roundtrip(ctx, case):
     if not ctx.check(isinstance(r, tuple) and len(r) == 2, "read/result-shape", repr(type(r))):
         return
     comp2, bpm2 = r
-    ctx.check(bpm2 == bpm, "tempo", lambda: "wrote %d bpm, read %r" % (bpm, bpm2))
+    carried = [e["bpm"] for td in cd["tracks"] for e in SG.entries_of(td) if "bpm" in e]
+    if not carried:  # with tempo-carrying containers the reader reports the last tempo it met; only the plain case is stated
+        ctx.check(bpm2 == bpm, "tempo", lambda: "wrote %d bpm, read %r" % (bpm, bpm2))
+    else:
+        ctx.check(bpm2 in set(carried) | {bpm}, "tempo", lambda: "wrote %d bpm and tempo marks %r, read %r" % (bpm, carried, bpm2))
     if not ctx.check(len(comp2.tracks) == len(cd["tracks"]), "track-count", lambda: "wrote %d tracks, read %d" % (len(cd["tracks"]), len(comp2.tracks))):
         return
     for i, (td, t2) in enumerate(zip(cd["tracks"], comp2.tracks)):
@@ -210,12 +214,14 @@ def _cfg(**kw):
     long_name = st.text(alphabet=st.characters(min_codepoint=32, max_codepoint=126), min_size=120, max_size=300)
     base["text"] = st.one_of(base["text"], base["text"], base["text"], long_name)
     base["twin_p"] = 5
+    base["share_instruments"] = True
     base.update(kw)
     return SG.Cfg(**base)
 
 
 def sub_random(ctx, shard, n):
-    strat = st.fixed_dictionaries({"comp": SG.comp_st(_cfg()), "bpm": st.integers(4, 1000) | st.integers(4, 7000), "uniform": st.just(False),
+    strat = st.fixed_dictionaries({"comp": SG.comp_st(_cfg()) | SG.comp_st(_cfg(bpm_p=5, bpms=st.integers(4, 1000))),
+                                   "bpm": st.integers(4, 1000) | st.integers(4, 7000), "uniform": st.just(False),
                                    "reuse": st.booleans()})
     ctx.given("roundtrip", check_roundtrip, strat, 300 if ctx.quick else 1500)
 
